@@ -89,6 +89,20 @@ func TestC06(t *testing.T) {
 			},
 			"prefill":    func(t *rapid.T) { mc.prefillAction(t); sync(t) },
 			"bulkDelete": func(t *rapid.T) { mc.ActBulkDelete(t); sync(t) },
+			// the primary writes a snapshot while 1..2 transactions commit (run by the hooks at a drawn point
+			// of the snapshot): those commits go to the snapshot's recorder AND must still reach the stream
+			"txnDuringSnapshot": func(t *rapid.T) {
+				sync(t)
+				point := rapid.SampledFrom([]string{"snapshot:recorder-open", "snapshot:pre-chunk:0", "snapshot:pre-close", "snapshot:pre-copy"}).Draw(t, "snapshot-point")
+				mc.logf("snapshot of the primary with transactions at %s", point)
+				remove := mc.installTail(t, map[string]int{point: rapid.IntRange(1, 2).Draw(t, "n")}, cfg, func(string, *TxnEffect, bool) { mc.flag("commit-during-snapshot") })
+				err := mc.C.Snapshot(io.Discard)
+				remove()
+				if err != nil {
+					mc.fail(t, "Snapshot of the primary: %v", err)
+				}
+				sync(t)
+			},
 			"lateColumn": func(t *rapid.T) {
 				sync(t)
 				before := append([]bool{}, mc.M.ColLive...)
